@@ -17,7 +17,8 @@ func init() {
 		ID:    "C17",
 		Title: "Values survive the journey unchanged",
 		Explanation: "Digits and byte-for-byte equality are value properties and are declined. Decided: (1) writer/reader table agreement — every value kind the gNMI→native writer can produce is an explicit case of both readers (native→gNMI and native→JSON); the gNMI oneof written back for a kind is the oneof the writer maps to that kind (AsciiVal is normalised to STRING/StringVal), for scalars and for leaf-list elements; unsupported oneof kinds are refused by the writer with an error, not mapped silently; " +
-			"(2) the RFC 7951 width rule of the JSON renderer: INT/UINT become strings exactly under 'RFC7951 ∧ width option present ∧ width > 32', DECIMAL/FLOAT strings under RFC 7951; (3) no narrowing integer conversion on the value path other than the listed ones (precision and width options, bounded by YANG); (4) the v2 and v3 copies of the value code have equal statement fingerprints (modulo the declared type substitutions).",
+			"(2) the RFC 7951 width rule of the JSON renderer: INT/UINT become strings exactly under 'RFC7951 ∧ width option present ∧ width > 32', DECIMAL/FLOAT strings under RFC 7951; (3) no narrowing integer conversion on the value path other than the listed ones (precision and width options, bounded by YANG); (4) the v2 and v3 copies of the value code have equal statement fingerprints (modulo the declared type substitutions)." +
+			" Also: mixed element types of a leaf-list are refused (C17.9); no int64/uint64 sign-changing conversion on the value and tree path (C17.10).",
 		Declined: []string{"digits, byte-for-byte equality", "behaviour of the onos-api typed-value constructors"},
 		Run:      runC17,
 		Witness:  []WitnessTarget{{pkgValuesV2, nil}, {pkgTreeV2, []string{"handleLeafValue"}}},
@@ -151,6 +152,7 @@ func runC17(c *engine.Ctx, tier string) {
 		valueTables(c, "C17.1/"+v.id, v.vals, v.tree)
 		widthRule(c, "C17.2/"+v.id, v.tree)
 		narrowing(c, "C17.3/"+v.id, v.vals)
+		signChanging(c, "C17.10/"+v.id, []string{v.vals, v.tree})
 		leafWritten(c, "C17.5/"+v.id, v.tree)
 		leafListWidth(c, "C17.2d/"+v.id, v.tree)
 	}
@@ -675,5 +677,83 @@ func oneElementType(c *engine.Ctx, id, rel string) {
 	if len(lists) >= 2 && refusing == 0 {
 		o.Fail(&engine.Violation{Key: rel + ".handleLeafList|mixed element types not refused", Pos: c.P.Pos(pos), Func: "handleLeafList",
 			Msg: fmt.Sprintf("the elements are sorted into %d per-type lists and one of them is returned, but after the loop the only error exit is the one for 'every list empty': a leaf-list with elements of two types is stored as the elements of one of them", len(lists))})
+	}
+}
+
+// signChanging: C17.10 (seed C17-r41). On the value path no 64-bit integer is converted to the type of the other
+// signedness: uint64 → int64 turns the upper half of the range negative (18446744073709551615 is rendered "-1"),
+// int64 → uint64 turns negatives into huge numbers. Operands of a type parameter are judged by every type of the
+// constraint (a generic helper over int64 | uint64 that formats through int64 is the refactoring slip of the seed).
+func signChanging(c *engine.Ctx, id string, pkgs []string) {
+	o := c.Custom(id, "conv(sign)", "no conversion between int64 and uint64 (or from a type parameter whose constraint admits the other signedness at 64 bits) of a non-constant operand in the value and tree packages",
+		"the value a client sets is the value in the JSON document, digit for digit")
+	defer o.Done(0)
+	wide := func(t types.Type) (signed, unsigned bool) {
+		var visit func(t types.Type)
+		visit = func(t types.Type) {
+			switch u := t.Underlying().(type) {
+			case *types.Basic:
+				switch u.Kind() {
+				case types.Int64:
+					signed = true
+				case types.Uint64:
+					unsigned = true
+				}
+			case *types.Interface:
+				for i := 0; i < u.NumEmbeddeds(); i++ {
+					visit(u.EmbeddedType(i))
+				}
+			case *types.Union:
+				for i := 0; i < u.Len(); i++ {
+					visit(u.Term(i).Type())
+				}
+			}
+		}
+		if tp, ok := t.(*types.TypeParam); ok {
+			visit(tp.Constraint())
+			return
+		}
+		visit(t)
+		return
+	}
+	for _, rel := range pkgs {
+		pkg := c.P.Pkg(rel)
+		if pkg == nil {
+			o.Undecided(rel, "package not found")
+			continue
+		}
+		info := pkg.TypesInfo
+		for _, fi := range c.P.FuncsOf(pkg) {
+			ast.Inspect(fi.Decl.Body, func(n ast.Node) bool {
+				call, ok := n.(*ast.CallExpr)
+				if !ok || len(call.Args) != 1 {
+					return true
+				}
+				tv, ok := info.Types[call.Fun]
+				if !ok || !tv.IsType() {
+					return true
+				}
+				if atv, ok := info.Types[call.Args[0]]; ok && atv.Value != nil {
+					return true
+				}
+				ft := info.TypeOf(call.Args[0])
+				if ft == nil {
+					return true
+				}
+				toS, toU := wide(tv.Type)
+				frS, frU := wide(ft)
+				if !(toS || toU) || !(frS || frU) {
+					return true
+				}
+				o.Site("")
+				o.Eval(1)
+				if (toS && frU) || (toU && frS) {
+					txt := types.ExprString(call)
+					o.Fail(&engine.Violation{Key: fi.Name() + "|sign-changing " + txt, Pos: c.P.Pos(call.Pos()), Func: fi.Name(),
+						Msg: txt + " converts a 64-bit integer to the other signedness (operand type " + ft.String() + "): half of the range changes its value"})
+				}
+				return true
+			})
+		}
 	}
 }
